@@ -31,13 +31,27 @@ Proof.
 Qed.
 
 (* ---------- the tree predicate ---------- *)
+(* the Vary field value of a header block, all field lines joined (what StoreResponse resolves against the request) *)
+Definition vary_of (h : headers) : bytes := join [44] (hvalues (bs "Vary") h).
+
 Section Safe.
   Variable G : bytes -> Z -> Prop.      (* [G u b]: the body token b belongs to the resource with URL key u *)
+  Variable P : request -> Prop.         (* [P q0]: the request q0 was sent to the origin *)
   Variable u : bytes.                   (* the URL key of the request this program serves *)
 
   Definition variant_of (k : bytes) : Prop := exists m, k = make_vary_key u m.
-  Definition refs_ok (l : list (option ref)) : Prop := forall r, In (Some r) l -> variant_of (r_id r).
-  Definition entry_ok (k : bytes) (e : stored_entry) : Prop := e_id e = k /\ G u (e_body e).
+  (* a reference is filed under the key of its own variant map *)
+  Definition ref_ok (r : ref) : Prop := r_id r = make_vary_key u (r_resolved r).
+  Definition refs_ok (l : list (option ref)) : Prop := forall r, In (Some r) l -> ref_ok r.
+  (* an entry is filed under the key of the variant map that a request sent to the origin for this URL key
+     resolves to under the entry's own Vary field *)
+  Definition stored_for (e : stored_entry) : Prop :=
+    exists q0 m, P q0 /\ make_url_key (q_url q0) = u /\
+                 normalize_vary (vary_of (e_hdr e)) (q_hdr q0) = Some m /\ e_id e = make_vary_key u m.
+  Definition entry_ok (k : bytes) (e : stored_entry) : Prop := e_id e = k /\ G u (e_body e) /\ stored_for e.
+
+  Lemma ref_ok_variant r : ref_ok r -> variant_of (r_id r).
+  Proof. intros H. exists (r_resolved r). exact H. Qed.
   Definition leaf_ok (o : outcome) : Prop := match o with OResp r => G u (p_body r) | _ => True end.
 
   Inductive Safe {A : Type} (L : A -> Prop) : prog A -> Prop :=
@@ -48,7 +62,7 @@ Section Safe.
   | SF_SetRefs k l c : k = u -> refs_ok l -> Safe L c -> Safe L (SetRefs k l c)
   | SF_Del k c : Safe L c -> Safe L (Del k c)
   | SF_Origin q c : make_url_key (q_url q) = u ->
-      (forall rep, (forall r, rep = RResp r -> G u (p_body r)) -> Safe L (c rep)) -> Safe L (Origin q c)
+      (forall rep, P q -> (forall r, rep = RResp r -> G u (p_body r)) -> Safe L (c rep)) -> Safe L (Origin q c)
   | SF_Now c : (forall t, Safe L (c t)) -> Safe L (Now c)
   | SF_Spawn p c : Safe (fun _ => True) p -> Safe L c -> Safe L (Spawn p c)
   | SF_Crash : Safe L Crash
@@ -73,7 +87,7 @@ Section Safe.
     | SetEntry k e c => variant_of k /\ entry_ok k e /\ Safe L c
     | SetRefs k l c => k = u /\ refs_ok l /\ Safe L c
     | Del k c => Safe L c
-    | Origin q c => make_url_key (q_url q) = u /\ forall rep, (forall r, rep = RResp r -> G u (p_body r)) -> Safe L (c rep)
+    | Origin q c => make_url_key (q_url q) = u /\ forall rep, P q -> (forall r, rep = RResp r -> G u (p_body r)) -> Safe L (c rep)
     | Now c => forall t, Safe L (c t)
     | Spawn b c => Safe (fun _ => True) b /\ Safe L c
     | Crash => True
@@ -86,6 +100,7 @@ End Safe.
 (* ---------- every RoundTrip program is Safe for its URL key ---------- *)
 Section Tree.
   Variable G : bytes -> Z -> Prop.
+  Variable P : request -> Prop.
   Hypothesis G_nobody : forall u, G u (-1).
 
   Lemma in_some_ids l id : In id (some_ids l) <-> exists r, In (Some r) l /\ r_id r = id.
@@ -98,15 +113,18 @@ Section Tree.
     - rewrite IH. split; intros (r' & H & E); exists r'; [auto|]. destruct H as [H|H]; [discriminate|auto].
   Qed.
 
-  Lemma refs_ok_ids u l : refs_ok u l <-> forall id, In id (some_ids l) -> variant_of u id.
+  Lemma unique_refs_rev_in l : forall seen x, In x (unique_refs_rev l seen) -> In x l.
   Proof.
-    unfold refs_ok. split.
-    - intros H id Hid. apply in_some_ids in Hid as (r & Hin & <-). apply H, Hin.
-    - intros H r Hr. apply H. apply in_some_ids. exists r. auto.
+    induction l as [|[r|] l IH]; intros seen x H; cbn [unique_refs_rev] in H; [destruct H| |].
+    - destruct (in_names (r_id r) seen); [right; eapply IH; exact H|].
+      destruct H as [H|H]; [left; exact H|right; eapply IH; exact H].
+    - destruct H as [H|H]; [left; exact H|right; eapply IH; exact H].
   Qed.
+  Lemma unique_refs_in l x : In x (unique_refs l) -> In x l.
+  Proof. unfold unique_refs. intros H. apply in_rev in H. apply unique_refs_rev_in in H. apply in_rev in H. exact H. Qed.
 
   Lemma unique_refs_ok u l : refs_ok u l -> refs_ok u (unique_refs l).
-  Proof. rewrite !refs_ok_ids. intros H id Hid. apply H. apply unique_refs_ids, Hid. Qed.
+  Proof. intros H r Hr. apply H. apply unique_refs_in, Hr. Qed.
 
   Lemma replace_nth_in {X} n (y : X) l x : In x (replace_nth n y l) -> x = y \/ In x l.
   Proof.
@@ -122,11 +140,14 @@ Section Tree.
     destruct Hr as [Hr|Hr]; [left; exact Hr|right; auto].
   Qed.
 
+  (* StoreResponse for a request that was sent to the origin *)
   Lemma store_response_safe u q r refs a b i :
+    P q -> make_url_key (q_url q) = u ->
     G u (p_body r) -> refs_ok u refs ->
-    Safe G u (fun r1 => G u (p_body r1)) (store_response q r u refs a b i).
+    Safe G P u (fun r1 => G u (p_body r1)) (store_response q r u refs a b i).
   Proof.
-    intros Hg Hr. unfold store_response. destruct (normalize_vary _ _) as [m|]; [|constructor].
+    intros Hp Hu Hg Hr. unfold store_response.
+    destruct (normalize_vary _ _) as [m|] eqn:En; [|constructor].
     set (id := make_vary_key u m).
     assert (Hrefs : refs_ok u (unique_refs
        (if (i <? 0) || (Z.of_nat (List.length refs) <=? i)
@@ -135,22 +156,23 @@ Section Tree.
         else replace_nth (Z.to_nat i) (Some {| r_id := id; r_vary := join [44] (hvalues (bs "Vary") (p_hdr (with_hdr r (remove_hop_by_hop (p_hdr r)))));
                              r_resolved := m; r_recv := date_header (p_hdr (with_hdr r (remove_hop_by_hop (p_hdr r)))) |}) refs))).
     { apply unique_refs_ok. intros x Hx. destruct ((i <? 0) || _).
-      - apply in_app_or in Hx as [Hx|[Hx|[]]]; [apply Hr, Hx|]. injection Hx as E. rewrite <- E. exists m. reflexivity.
-      - apply replace_nth_in in Hx as [Hx|Hx]; [injection Hx as E; rewrite E; exists m; reflexivity|apply Hr, Hx]. }
+      - apply in_app_or in Hx as [Hx|[Hx|[]]]; [apply Hr, Hx|]. injection Hx as E. rewrite <- E. reflexivity.
+      - apply replace_nth_in in Hx as [Hx|Hx]; [injection Hx as E; rewrite E; reflexivity|apply Hr, Hx]. }
     cbn [p_body_ok with_hdr]. destruct (p_body_ok r).
-    - apply SF_SetEntry; [exists m; reflexivity|split; [reflexivity|exact Hg]|].
-      apply SF_SetRefs; [reflexivity|exact Hrefs|]. constructor. exact Hg.
+    - apply SF_SetEntry; [exists m; reflexivity| |].
+      + split; [reflexivity|split; [exact Hg|]]. exists q, m. split; [exact Hp|split; [exact Hu|split; [exact En|reflexivity]]].
+      + apply SF_SetRefs; [reflexivity|exact Hrefs|]. constructor. exact Hg.
     - apply SF_SetRefs; [reflexivity|exact Hrefs|]. constructor. cbn. apply G_nobody.
   Qed.
 
   Lemma del_all_safe {A} u (L : A -> Prop) ks : forall done (c : list bytes -> prog A),
-    (forall d, Safe G u L (c d)) -> Safe G u L (del_all ks done c).
+    (forall d, Safe G P u L (c d)) -> Safe G P u L (del_all ks done c).
   Proof.
     induction ks as [|k ks IH]; intros done c H; cbn; auto. destruct (existsb _ _); auto. constructor; auto.
   Qed.
 
   Lemma invalidate_locations_safe {A} u (L : A -> Prop) ru h hs : forall done (c : list bytes -> prog A),
-    (forall d, Safe G u L (c d)) -> Safe G u L (invalidate_locations hs ru h done c).
+    (forall d, Safe G P u L (c d)) -> Safe G P u L (invalidate_locations hs ru h done c).
   Proof.
     induction hs as [|hn hs IH]; intros done c Hc; cbn [invalidate_locations]; auto.
     destruct (hget hn h); [apply IH, Hc|]. destruct (parse_url _); [|constructor].
@@ -160,27 +182,29 @@ Section Tree.
   Qed.
 
   Lemma invalidate_cache_safe {A} u (L : A -> Prop) ru h refs key (c : prog A) :
-    Safe G u L c -> Safe G u L (invalidate_cache ru h refs key c).
+    Safe G P u L c -> Safe G P u L (invalidate_cache ru h refs key c).
   Proof.
     intros Hc. unfold invalidate_cache. destruct (ref_ids _); [|constructor].
     apply del_all_safe. intros d. apply invalidate_locations_safe. intros d'. apply del_all_safe. auto.
   Qed.
 
-  (* the validation response handler, given a stored entry and references the store invariant vouches for *)
+  (* the validation response handler, given a stored entry and references the store invariant vouches for,
+     and a (conditional) request that was sent to the origin *)
   Lemma hvr_safe u ctx q rep :
+    P q -> make_url_key (q_url q) = u ->
     rc_url_key ctx = u -> G u (e_body (rc_stored ctx)) -> refs_ok u (rc_refs ctx) ->
     (forall r, rep = RResp r -> G u (p_body r)) ->
-    Safe G u (leaf_ok G u) (handle_validation_response ctx q rep).
+    Safe G P u (leaf_ok G u) (handle_validation_response ctx q rep).
   Proof.
-    intros Hu Hst Hrefs Hrep. unfold handle_validation_response. rewrite Hu.
+    intros Hp Hq Hu Hst Hrefs Hrep. unfold handle_validation_response. rewrite Hu.
     destruct rep as [|r].
-    - cbn [andb]. match goal with |- Safe _ _ _ (if ?c then _ else _) => destruct c end; [|constructor; exact I].
+    - cbn [andb]. match goal with |- Safe _ _ _ _ (if ?c then _ else _) => destruct c end; [|constructor; exact I].
       constructor. intros now. destruct (can_stale_on_error _ _ _); constructor; [exact Hst|exact I].
     - specialize (Hrep r eq_refl).
       destruct (is_get (q_method q) && (p_status r =? 304)).
       + destruct (_ || _); [constructor; exact Hst|].
-        eapply Safe_bind; [apply store_response_safe; [exact Hst|exact Hrefs]|]. intros r1 Hr1. constructor. exact Hr1.
-      + assert (Hafter : Safe G u (leaf_ok G u)
+        eapply Safe_bind; [apply store_response_safe; [exact Hp|exact Hq|exact Hst|exact Hrefs]|]. intros r1 Hr1. constructor. exact Hr1.
+      + assert (Hafter : Safe G P u (leaf_ok G u)
           (let cc_resp := parse_cc (p_hdr r) in
            if can_store_response r (rc_cc_req ctx) cc_resp
            then r1 <- store_response q r u (rc_refs ctx) (rc_start ctx) (rc_end ctx) (rc_ref_index ctx);;
@@ -190,45 +214,46 @@ Section Tree.
                        (Ret (OResp (with_hdr r (apply_status BYPASS (p_hdr r)))))
                 else Ret (OResp (with_hdr r (apply_status BYPASS (p_hdr r)))))).
         { cbv zeta. destruct (can_store_response _ _ _).
-          - eapply Safe_bind; [apply store_response_safe; [exact Hrep|exact Hrefs]|]. intros r1 Hr1. constructor. exact Hr1.
+          - eapply Safe_bind; [apply store_response_safe; [exact Hp|exact Hq|exact Hrep|exact Hrefs]|]. intros r1 Hr1. constructor. exact Hr1.
           - destruct (_ && _); [apply invalidate_cache_safe|]; constructor; exact Hrep. }
-        match goal with |- Safe _ _ _ (if ?c then _ else _) => destruct c end; [|exact Hafter].
+        match goal with |- Safe _ _ _ _ (if ?c then _ else _) => destruct c end; [|exact Hafter].
         constructor. intros now. destruct (can_stale_on_error _ _ _); [constructor; exact Hst|exact Hafter].
   Qed.
 End Tree.
 
 Section Tree2.
   Variable G : bytes -> Z -> Prop.
+  Variable P : request -> Prop.
   Hypothesis G_nobody : forall u, G u (-1).
 
   Lemma rtt_safe {A} u (L : A -> Prop) q (c : origin_reply -> Z -> Z -> prog A) :
     make_url_key (q_url q) = u ->
-    (forall rep a b, (forall r, rep = RResp r -> G u (p_body r)) -> Safe G u L (c rep a b)) ->
-    Safe G u L (round_trip_timed q c).
+    (forall rep a b, P q -> (forall r, rep = RResp r -> G u (p_body r)) -> Safe G P u L (c rep a b)) ->
+    Safe G P u L (round_trip_timed q c).
   Proof.
     intros Hu Hc. unfold round_trip_timed. constructor. intros a. apply SF_Origin; [exact Hu|].
-    intros rep Hrep. constructor. intros b. destruct rep as [|r]; apply Hc.
+    intros rep Hp Hrep. constructor. intros b. destruct rep as [|r]; apply Hc; try exact Hp.
     - intros r0 E. discriminate.
     - intros r0 E. injection E as <-. cbn [with_hdr p_body]. apply Hrep. reflexivity.
   Qed.
 
   Lemma miss_safe u q refs i : make_url_key (q_url q) = u -> refs_ok u refs ->
-    Safe G u (leaf_ok G u) (handle_cache_miss q u refs i).
+    Safe G P u (leaf_ok G u) (handle_cache_miss q u refs i).
   Proof.
     intros Hu Hr. unfold handle_cache_miss. destruct (req_only_if_cached _); [constructor; cbn; apply G_nobody|].
-    apply rtt_safe; [exact Hu|]. intros [|r] a b Hrep; [constructor; exact I|]. cbv zeta.
+    apply rtt_safe; [exact Hu|]. intros [|r] a b Hp Hrep; [constructor; exact I|]. cbv zeta.
     specialize (Hrep r eq_refl).
     destruct (_ && _); [|constructor; exact Hrep].
-    eapply Safe_bind; [apply store_response_safe; [exact G_nobody|exact Hrep|exact Hr]|]. intros r1 H1. constructor. exact H1.
+    eapply Safe_bind; [apply store_response_safe; [exact G_nobody|exact Hp|exact Hu|exact Hrep|exact Hr]|]. intros r1 H1. constructor. exact H1.
   Qed.
 
   Lemma bg_safe u q stored f cc : make_url_key (q_url q) = u -> variant_of u (e_id stored) ->
-    Safe G u (fun _ => True) (background_revalidate q stored u f cc).
+    Safe G P u (fun _ => True) (background_revalidate q stored u f cc).
   Proof.
     intros Hu Hv. unfold background_revalidate. apply rtt_safe; [exact Hu|].
-    intros [|r] a b Hrep; [constructor; exact I|].
+    intros [|r] a b Hp Hrep; [constructor; exact I|].
     apply SF_GetEntry; [exact Hv|]. intros own Hown. destruct own as [own|]; [|constructor; exact I].
-    destruct (Hown own eq_refl) as [_ Hbody].
+    destruct (Hown own eq_refl) as (_ & Hbody & _).
     destruct (_ && _); [constructor; exact I|].
     unfold get_refs_clean. constructor. intros ans Hans.
     eapply Safe_bind; [|intros; constructor; exact I].
@@ -237,16 +262,16 @@ Section Tree2.
     apply refs_ok_drop. apply Hans; reflexivity.
   Qed.
 
-  Lemma hit_safe u q stored refs i : make_url_key (q_url q) = u -> entry_ok G u (e_id stored) stored ->
+  Lemma hit_safe u q stored refs i : make_url_key (q_url q) = u -> entry_ok G P u (e_id stored) stored ->
     variant_of u (e_id stored) -> refs_ok u refs ->
-    Safe G u (leaf_ok G u) (handle_cache_hit q stored u refs i).
+    Safe G P u (leaf_ok G u) (handle_cache_hit q stored u refs i).
   Proof.
-    intros Hu [_ Hbody] Hv Hr. unfold handle_cache_hit. constructor. intros now. cbv zeta.
+    intros Hu (_ & Hbody & _) Hv Hr. unfold handle_cache_hit. constructor. intros now. cbv zeta.
     destruct (decide_hit q stored now).
     - constructor. unfold serve_from_cache. cbn. exact Hbody.
     - unfold handle_stale_while_revalidate. apply SF_Spawn; [apply bg_safe; [exact Hu|exact Hv]|]. constructor. cbn. exact Hbody.
     - constructor. cbn. apply G_nobody.
-    - apply rtt_safe; [exact Hu|]. intros rep a b Hrep. apply hvr_safe; cbn [rc_url_key rc_stored rc_refs]; auto.
+    - apply rtt_safe; [exact Hu|]. intros rep a b Hp Hrep. apply hvr_safe; cbn [rc_url_key rc_stored rc_refs]; auto.
   Qed.
 
   Lemma strip_refs_in refs r : In r (strip_refs refs) -> In (Some r) refs.
@@ -255,12 +280,12 @@ Section Tree2.
     intros [H|H]; [left; congruence|right; auto].
   Qed.
 
-  Theorem round_trip_safe q : Safe G (make_url_key (q_url q)) (leaf_ok G (make_url_key (q_url q))) (round_trip q).
+  Theorem round_trip_safe q : Safe G P (make_url_key (q_url q)) (leaf_ok G (make_url_key (q_url q))) (round_trip q).
   Proof.
     set (u := make_url_key (q_url q)). unfold round_trip. fold u. destruct (negb _).
-    - unfold handle_unrecognized_method. apply SF_Origin; [reflexivity|]. intros [|r] Hrep; [constructor; exact I|].
+    - unfold handle_unrecognized_method. apply SF_Origin; [reflexivity|]. intros [|r] _ Hrep; [constructor; exact I|].
       specialize (Hrep r eq_refl).
-      assert (Hd : Safe G u (leaf_ok G u) (Ret (OResp (with_hdr r (apply_status BYPASS (p_hdr r)))))) by (constructor; exact Hrep).
+      assert (Hd : Safe G P u (leaf_ok G u) (Ret (OResp (with_hdr r (apply_status BYPASS (p_hdr r)))))) by (constructor; exact Hrep).
       destruct (_ && _); [|exact Hd]. unfold get_refs_clean. constructor. intros ans _. apply invalidate_cache_safe. exact Hd.
     - unfold get_refs_clean. constructor. intros ans Hans.
       destruct ans as [l|]; cbn [option_map]; [|apply miss_safe; [reflexivity|intros x []]].
@@ -275,10 +300,10 @@ Section Tree2.
       destruct oi as [i|]; [|apply miss_safe; [reflexivity|exact Hs]].
       destruct (nth_error sorted (Z.to_nat i)) as [r|] eqn:En; [|constructor].
       assert (Hv : variant_of u (r_id r)).
-      { apply Hs. apply in_map. eapply nth_error_In. exact En. }
+      { apply ref_ok_variant. apply Hs. apply in_map. eapply nth_error_In. exact En. }
       apply SF_GetEntry; [exact Hv|]. intros e He. destruct e as [stored|]; [|apply miss_safe; [reflexivity|exact Hs]].
-      destruct (He stored eq_refl) as [Hid Hb].
-      apply hit_safe; [reflexivity|split; [reflexivity|exact Hb]|rewrite Hid; exact Hv|exact Hs].
+      destruct (He stored eq_refl) as (Hid & Hb & Hsf).
+      apply hit_safe; [reflexivity|split; [reflexivity|split; [exact Hb|exact Hsf]]|rewrite Hid; exact Hv|exact Hs].
   Qed.
 End Tree2.
 
@@ -288,9 +313,13 @@ Definition calls_of (L : list event) (b : Z) (q : request) : Prop := exists a c 
 Definition Gl (L : list event) (u : bytes) (b : Z) : Prop :=
   b = -1 \/ exists q, calls_of L b q /\ make_url_key (q_url q) = u.
 
-Definition InvS (G : bytes -> Z -> Prop) (s : store) : Prop :=
-  (forall k e, get_entry s k = Some e -> e_id e = k /\ exists u m, k = make_vary_key u m /\ G u (e_body e)) /\
-  (forall u l, get_refs s u = Some l -> forall r, In (Some r) l -> exists m, r_id r = make_vary_key u m).
+(* [Pl L q]: the request q was sent to the origin (a call with exactly this request is in L) *)
+Definition Pl (L : list event) (q : request) : Prop := exists b a c rep, In (EvCall b q a c rep) L.
+
+Definition InvS (G : bytes -> Z -> Prop) (P : request -> Prop) (s : store) : Prop :=
+  (forall k e, get_entry s k = Some e ->
+     e_id e = k /\ exists u m, k = make_vary_key u m /\ G u (e_body e) /\ stored_for P u e) /\
+  (forall u l, get_refs s u = Some l -> forall r, In (Some r) l -> r_id r = make_vary_key u (r_resolved r)).
 
 Lemma get_entry_aremove k k' s : get_entry (aremove k' s) k = if beq k k' then None else get_entry s k.
 Proof.
@@ -309,9 +338,9 @@ Proof. unfold get_refs. rewrite alookup_aset_same. reflexivity. Qed.
 Lemma get_entry_aset_refs k l s : get_entry (aset k (SRefs l) s) k = None.
 Proof. unfold get_entry. rewrite alookup_aset_same. reflexivity. Qed.
 
-Lemma InvS_set_entry G s u k e : InvS G s -> variant_of u k -> entry_ok G u k e -> InvS G (aset k (SEntry e) s).
+Lemma InvS_set_entry G P s u k e : InvS G P s -> variant_of u k -> entry_ok G P u k e -> InvS G P (aset k (SEntry e) s).
 Proof.
-  intros [I1 I2] [m Hk] [Hid Hb]. split.
+  intros [I1 I2] [m Hk] (Hid & Hb & Hsf). split.
   - intros k' e' H. destruct (beq k' k) eqn:E.
     + apply beq_eq in E. subst k'. rewrite get_entry_aset_same in H. injection H as <-. split; [exact Hid|]. exists u, m. auto.
     + rewrite get_entry_aset_other in H by exact E. apply I1, H.
@@ -319,7 +348,7 @@ Proof.
     + apply beq_eq in E. subst u'. rewrite get_refs_aset_entry in H. discriminate.
     + rewrite get_refs_aset_other in H by exact E. apply (I2 u' l H).
 Qed.
-Lemma InvS_set_refs G s u l : InvS G s -> refs_ok u l -> InvS G (aset u (SRefs l) s).
+Lemma InvS_set_refs G P s u l : InvS G P s -> refs_ok u l -> InvS G P (aset u (SRefs l) s).
 Proof.
   intros [I1 I2] Hl. split.
   - intros k' e' H. destruct (beq k' u) eqn:E.
@@ -329,7 +358,7 @@ Proof.
     + apply beq_eq in E. subst u'. rewrite get_refs_aset_same in H. injection H as <-. intros r Hr. apply Hl, Hr.
     + rewrite get_refs_aset_other in H by exact E. apply (I2 u' l' H).
 Qed.
-Lemma InvS_del G s k : InvS G s -> InvS G (aremove k s).
+Lemma InvS_del G P s k : InvS G P s -> InvS G P (aremove k s).
 Proof.
   intros [I1 I2]. split.
   - intros k' e' H. rewrite get_entry_aremove in H. destruct (beq k' k); [discriminate|]. apply I1, H.
@@ -347,6 +376,12 @@ Proof.
     try destruct (T <? _); cbn; eexists; repeat split;
     try (destruct (_ || _)); try (destruct r0); try (destruct rc); cbn; auto;
     try (destruct (no_body_status _); [left; reflexivity|right; eauto]).
+Qed.
+
+Lemma do_origin_logs_call limit q w : exists b a c rep, w_log (snd (do_origin limit q w)) = EvCall b q a c rep :: w_log w.
+Proof.
+  unfold do_origin. destruct (w_script w) as [|[[d r0] rc] t]; destruct limit as [T|]; cbn;
+    try destruct (T <? _); cbn; repeat eexists.
 Qed.
 
 Lemma run_log_mono {A} (p : prog A) : forall limit w res w', run limit p w = (res, w') ->
@@ -369,7 +404,7 @@ Proof.
   - injection H as _ <-. split; [exists []|exists []; rewrite app_nil_r]; reflexivity.
 Qed.
 
-Definition bg_safe_any (Lf : list event) (p : prog unit) : Prop := exists u, Safe (Gl Lf) u (fun _ => True) p.
+Definition bg_safe_any (Lf : list event) (p : prog unit) : Prop := exists u, Safe (Gl Lf) (Pl Lf) u (fun _ => True) p.
 
 Lemma Gl_nobody L u : Gl L u (-1).
 Proof. left. reflexivity. Qed.
@@ -377,9 +412,9 @@ Proof. left. reflexivity. Qed.
 (* one program, run to its end: the store invariant is kept, the result satisfies the leaf predicate, and what
    was spawned is Safe — provided every event logged ends up in Lf *)
 Lemma run_safe {A} (p : prog A) : forall (L : A -> Prop) u Lf limit w res w',
-  Safe (Gl Lf) u L p -> InvS (Gl Lf) (w_store w) -> Forall (bg_safe_any Lf) (w_pending w) ->
+  Safe (Gl Lf) (Pl Lf) u L p -> InvS (Gl Lf) (Pl Lf) (w_store w) -> Forall (bg_safe_any Lf) (w_pending w) ->
   run limit p w = (res, w') -> incl (w_log w') Lf ->
-  InvS (Gl Lf) (w_store w') /\ (forall a, res = Done a -> L a) /\ Forall (bg_safe_any Lf) (w_pending w').
+  InvS (Gl Lf) (Pl Lf) (w_store w') /\ (forall a, res = Done a -> L a) /\ Forall (bg_safe_any Lf) (w_pending w').
 Proof.
   induction p as [A0 a|A0 k c IH|A0 k c IH|A0 k e c IH|A0 k l c IH|A0 k c IH|A0 r c IH|A0 c IH|A0 b IHb c IHc|A0|A0];
     intros L u Lf limit w res w' HS HI HP H Hincl; cbn [run] in H; apply Safe_inversion in HS; cbn [Safe_inv] in HS.
@@ -387,8 +422,8 @@ Proof.
   - refine (IH _ L u Lf limit _ res w' _ _ _ H Hincl); [|exact HI|exact HP]. apply HS.
     intros -> l Hl r Hr. destruct HI as [_ I2]. exact (I2 _ _ Hl r Hr).
   - destruct HS as [[m Hm] HS]. refine (IH _ L u Lf limit _ res w' _ _ _ H Hincl); [|exact HI|exact HP]. apply HS.
-    intros e0 He. destruct HI as [I1 _]. destruct (I1 _ _ He) as [Hid (u' & m' & Hk & Hg)].
-    split; [exact Hid|]. rewrite Hm in Hk. apply vary_key_url_inj in Hk. subst u'. exact Hg.
+    intros e0 He. destruct HI as [I1 _]. destruct (I1 _ _ He) as [Hid (u' & m' & Hk & Hg & Hsf)].
+    split; [exact Hid|]. rewrite Hm in Hk. apply vary_key_url_inj in Hk. subst u'. split; assumption.
   - destruct HS as (Hv & He & HS). refine (IH L u Lf limit _ res w' HS _ _ H Hincl); [|exact HP]. cbn. eapply InvS_set_entry; eassumption.
   - destruct HS as (-> & Hl & HS). refine (IH L u Lf limit _ res w' HS _ _ H Hincl); [|exact HP]. cbn. apply InvS_set_refs; assumption.
   - refine (IH L u Lf limit _ res w' HS _ _ H Hincl); [|exact HP]. cbn. apply InvS_del; assumption.
@@ -396,6 +431,8 @@ Proof.
     destruct (do_origin_log limit r w) as (ev & Hl & Hst & Hpe & Hrep). destruct (do_origin limit r w) as [rep w1] eqn:Ed. cbn [fst snd] in *.
     destruct (run_log_mono _ _ _ _ _ H) as [[y Hy] _].
     refine (IH _ L u Lf limit _ res w' _ _ _ H Hincl); [|rewrite Hst; exact HI|rewrite Hpe; exact HP]. apply HS.
+    { destruct (do_origin_logs_call limit r w) as (b0 & a0 & c1 & rp0 & Hcall). rewrite Ed in Hcall. cbn [snd] in Hcall.
+      exists b0, a0, c1, rp0. apply Hincl. rewrite Hy, Hcall. apply in_or_app. right. left. reflexivity. }
     intros r0 E. subst rep. destruct Hrep as [Hb|(a & c0 & rp & Hev)]; [rewrite Hb; apply Gl_nobody|].
     right. exists r. split; [|exact Hu]. exists a, c0, rp. apply Hincl. rewrite Hy, Hl. apply in_or_app. right. left. exact Hev.
   - refine (IH _ L u Lf limit _ res w' _ HI HP H Hincl). apply HS.
@@ -416,9 +453,9 @@ Proof.
     + injection H as _ <-. exists y1. exact H1.
 Qed.
 
-Lemma run_pending_safe Lf T ps : forall w ok w', Forall (bg_safe_any Lf) ps -> InvS (Gl Lf) (w_store w) ->
+Lemma run_pending_safe Lf T ps : forall w ok w', Forall (bg_safe_any Lf) ps -> InvS (Gl Lf) (Pl Lf) (w_store w) ->
   Forall (bg_safe_any Lf) (w_pending w) ->
-  run_pending T ps w = (ok, w') -> incl (w_log w') Lf -> InvS (Gl Lf) (w_store w').
+  run_pending T ps w = (ok, w') -> incl (w_log w') Lf -> InvS (Gl Lf) (Pl Lf) (w_store w').
 Proof.
   induction ps as [|p r IH]; intros w ok w' Hps HI HP H Hincl; cbn [run_pending] in H.
   - injection H as _ <-. exact HI.
@@ -439,9 +476,9 @@ Lemma incl_rev_l {X} (a b : list X) : incl (rev a) b -> incl a b.
 Proof. intros H x Hx. apply H. apply in_rev in Hx. exact Hx. Qed.
 
 Theorem exchange_safe Lf cfg q w obs w' :
-  InvS (Gl Lf) (w_store w) -> exchange cfg q w = (obs, w') ->
+  InvS (Gl Lf) (Pl Lf) (w_store w) -> exchange cfg q w = (obs, w') ->
   incl (x_events obs ++ x_bg_events obs) Lf ->
-  InvS (Gl Lf) (w_store w') /\
+  InvS (Gl Lf) (Pl Lf) (w_store w') /\
   (forall r, x_result obs = Done (OResp r) -> Gl Lf (make_url_key (q_url q)) (p_body r)).
 Proof.
   intros HI H Hincl. unfold exchange in H.
@@ -453,7 +490,7 @@ Proof.
   assert (Hbg : incl (w_log w2) Lf).
   { apply incl_rev_l. intros x Hx. apply Hincl. apply in_or_app. right. exact Hx. }
   destruct (run_safe (round_trip q) (leaf_ok (Gl Lf) (make_url_key (q_url q))) (make_url_key (q_url q)) Lf None
-              (clear_log_pending w) res w1 (round_trip_safe (Gl Lf) (Gl_nobody Lf) q) HI (Forall_nil _) E1 Hfg) as (HI1 & Hleaf & HP1).
+              (clear_log_pending w) res w1 (round_trip_safe (Gl Lf) (Pl Lf) (Gl_nobody Lf) q) HI (Forall_nil _) E1 Hfg) as (HI1 & Hleaf & HP1).
   split.
   - exact (run_pending_safe Lf _ _ (clear_log_pending w1) ok w2 HP1 HI1 (Forall_nil _) E2 Hbg).
   - intros r Hr. exact (Hleaf (OResp r) Hr).
@@ -461,7 +498,7 @@ Qed.
 
 (* a whole sequential history, from any store satisfying the invariant *)
 Theorem history_safe Lf cfg h : forall w,
-  InvS (Gl Lf) (w_store w) ->
+  InvS (Gl Lf) (Pl Lf) (w_store w) ->
   incl (flat_map (fun o => x_events o ++ x_bg_events o) (run_history cfg h w)) Lf ->
   forall k gq o r, nth_error h k = Some gq -> nth_error (run_history cfg h w) k = Some o ->
     x_result o = Done (OResp r) -> Gl Lf (make_url_key (q_url (snd gq))) (p_body r).
@@ -480,41 +517,120 @@ Proof.
     intros x Hx. apply Hincl. apply in_or_app. right. exact Hx.
 Qed.
 
-Lemma InvS_empty G : InvS G [].
+(* the world in which each exchange of a history starts *)
+Fixpoint worlds_before (cfg : config) (h : history) (w : world) : list world :=
+  match h with
+  | [] => []
+  | (gap, q) :: r =>
+      let w' := {| w_store := w_store w; w_clock := w_clock w + gap; w_script := w_script w;
+                   w_calls := w_calls w; w_log := []; w_pending := [] |} in
+      w' :: worlds_before cfg r (snd (exchange cfg q w'))
+  end.
+
+(* the store invariant holds of the store every exchange starts from *)
+Theorem history_inv Lf cfg h : forall w,
+  InvS (Gl Lf) (Pl Lf) (w_store w) ->
+  incl (flat_map (fun o => x_events o ++ x_bg_events o) (run_history cfg h w)) Lf ->
+  forall k wk, nth_error (worlds_before cfg h w) k = Some wk -> InvS (Gl Lf) (Pl Lf) (w_store wk).
+Proof.
+  induction h as [|[gap q] h IH]; intros w HI Hincl k wk Hk; [destruct k; discriminate|].
+  cbn [run_history worlds_before] in *.
+  destruct (exchange cfg q {| w_store := w_store w; w_clock := w_clock w + gap; w_script := w_script w;
+                              w_calls := w_calls w; w_log := []; w_pending := [] |}) as [obs w2] eqn:E.
+  cbn [flat_map snd] in *.
+  destruct k as [|k].
+  - cbn in Hk. injection Hk as <-. exact HI.
+  - cbn in Hk.
+    destruct (exchange_safe Lf cfg q {| w_store := w_store w; w_clock := w_clock w + gap; w_script := w_script w;
+                              w_calls := w_calls w; w_log := []; w_pending := [] |} obs w2 HI E) as [HI2 _].
+    { intros x Hx. apply Hincl. apply in_or_app. left. exact Hx. }
+    eapply IH; [exact HI2| |exact Hk]. intros x Hx. apply Hincl. apply in_or_app. right. exact Hx.
+Qed.
+
+(* ---------- variants: what the store invariant says at a lookup ---------- *)
+(* A reference of the index of u that matches the request, and the entry under its id: the entry was filed
+   for a request q0 that was sent to the origin for the same URL key, under the variant map q0 resolves to
+   under the entry's own Vary field; and that map has the same key as the reference's. *)
+Lemma variant_provenance G P s u l r e :
+  InvS G P s -> get_refs s u = Some l -> In (Some r) l -> get_entry s (r_id r) = Some e ->
+  exists q0 m, P q0 /\ make_url_key (q_url q0) = u /\
+    normalize_vary (vary_of (e_hdr e)) (q_hdr q0) = Some m /\
+    make_vary_key u m = make_vary_key u (r_resolved r).
+Proof.
+  intros [I1 I2] Hl Hr He. pose proof (I2 u l Hl r Hr) as Hid.
+  destruct (I1 _ _ He) as [Heid (u' & m' & Hk & _ & (q0 & m & Hp & Hu & Hn & Hem))].
+  assert (Eu : u' = u). { rewrite Hid in Hk. symmetry. eapply vary_key_url_inj. exact Hk. }
+  rewrite Eu in *. exists q0, m. split; [exact Hp|split; [exact Hu|split; [exact Hn|]]].
+  rewrite <- Hem, Heid. exact Hid.
+Qed.
+
+Lemma in_amem {V} k (v : V) l : In (k, v) l -> amem k l = true.
+Proof.
+  unfold amem. induction l as [|[k' v'] l IH]; intros H; [destruct H|]. cbn.
+  destruct (beq k k') eqn:E; [reflexivity|]. destruct H as [H|H]; [|apply IH, H].
+  injection H as -> _. rewrite beq_refl in E. discriminate.
+Qed.
+
+(* ref_match_sound for a variant map that has the same bindings as the reference's (the same key, when keys
+   determine maps) *)
+Lemma ref_match_sound_same_bindings names h0 h r m :
+  resolve_names names h0 [] = Some m ->
+  (forall x, In x m <-> In x (r_resolved r)) ->
+  ref_matches r h = Some true ->
+  ~ In (bs "*") names /\
+  forall n, In n names -> exists v, norm_first n h0 = Some v /\ norm_first n h = Some v.
+Proof.
+  intros Hres Hsame Hm. unfold ref_matches in Hm.
+  destruct (amem (bs "*") (r_resolved r) || beq (go_trim (r_vary r)) (bs "*")) eqn:Es; [discriminate|].
+  apply Bool.orb_false_iff in Es as [Es _].
+  destruct (resolve_names_bindings names h0 [] m Hres) as (Hb & Hn & _); [intros n v H; discriminate|].
+  assert (Hfind : forall n, In n names -> exists v, alookup n m = Some v /\ In (n, v) (r_resolved r)).
+  { intros n Hin. pose proof (Hn n Hin) as Ha. unfold amem in Ha.
+    destruct (alookup n m) as [v|] eqn:El; [|discriminate]. exists v. split; [reflexivity|].
+    destruct (alookup_in _ _ _ El) as (k' & Hin' & Hk). subst k'. apply Hsame, Hin'. }
+  split.
+  - intros Hin. destruct (Hfind _ Hin) as (v & _ & Hr). rewrite (in_amem _ _ _ Hr) in Es. discriminate.
+  - intros n Hin. destruct (Hfind _ Hin) as (v & El & Hr). exists v. split; [apply Hb, El|].
+    apply (resolved_match_true _ _ Hm n v Hr).
+Qed.
+
+Lemma InvS_empty G P : InvS G P [].
 Proof. split; intros; discriminate. Qed.
 
 (* ---------- the same, one operation at a time (for the concurrent semantics) ---------- *)
 From HC Require Import Conc.
 
-Lemma settle_safe {A} (p : prog A) : forall G u (L : A -> Prop) clock sp p' sp',
-  Safe G u L p -> settle p clock sp = (p', sp') ->
-  Safe G u L p' /\ exists more, sp' = sp ++ more /\ Forall (fun b => Safe G u (fun _ => True) b) more.
+Lemma settle_safe {A} (p : prog A) : forall G P u (L : A -> Prop) clock sp p' sp',
+  Safe G P u L p -> settle p clock sp = (p', sp') ->
+  Safe G P u L p' /\ exists more, sp' = sp ++ more /\ Forall (fun b => Safe G P u (fun _ => True) b) more.
 Proof.
   induction p as [A0 a|A0 k c IH|A0 k c IH|A0 k e c IH|A0 k l c IH|A0 k c IH|A0 r c IH|A0 c IH|A0 b IHb c IHc|A0|A0];
-    intros G u L clock sp p' sp' HS H; cbn [settle] in H;
+    intros G P u L clock sp p' sp' HS H; cbn [settle] in H;
     try (injection H as <- <-; split; [exact HS|exists []; rewrite app_nil_r; split; [reflexivity|constructor]]).
-  - apply Safe_inversion in HS. cbn [Safe_inv] in HS. exact (IH _ G u L clock sp p' sp' (HS clock) H).
+  - apply Safe_inversion in HS. cbn [Safe_inv] in HS. exact (IH _ G P u L clock sp p' sp' (HS clock) H).
   - apply Safe_inversion in HS. cbn [Safe_inv] in HS. destruct HS as [Hb HS].
-    destruct (IHc G u L clock (sp ++ [b]) p' sp' HS H) as [Hp' (more & -> & HF)].
+    destruct (IHc G P u L clock (sp ++ [b]) p' sp' HS H) as [Hp' (more & -> & HF)].
     split; [exact Hp'|]. exists (b :: more). split; [rewrite <- app_assoc; reflexivity|constructor; assumption].
 Qed.
 
 Lemma perform_safe {A} (p : prog A) Lf u (L : A -> Prop) limit w p1 w1 :
-  Safe (Gl Lf) u L p -> InvS (Gl Lf) (w_store w) -> perform limit p w = (p1, w1) -> incl (w_log w1) Lf ->
-  Safe (Gl Lf) u L p1 /\ InvS (Gl Lf) (w_store w1).
+  Safe (Gl Lf) (Pl Lf) u L p -> InvS (Gl Lf) (Pl Lf) (w_store w) -> perform limit p w = (p1, w1) -> incl (w_log w1) Lf ->
+  Safe (Gl Lf) (Pl Lf) u L p1 /\ InvS (Gl Lf) (Pl Lf) (w_store w1).
 Proof.
-  intros HS HI H Hincl. pose proof (Safe_inversion _ _ _ _ HS) as Hinv.
+  intros HS HI H Hincl. pose proof (Safe_inversion _ _ _ _ _ HS) as Hinv.
   destruct p; cbn [perform] in H; cbn [Safe_inv] in Hinv; try (injection H as <- <-; split; [exact HS|exact HI]).
   - injection H as <- <-. split; [|exact HI]. apply Hinv. intros -> l Hl r Hr. destruct HI as [_ I2]. exact (I2 _ _ Hl r Hr).
   - destruct Hinv as [[m Hm] Hinv]. injection H as <- <-. split; [|exact HI]. apply Hinv.
-    intros e0 He. destruct HI as [I1 _]. destruct (I1 _ _ He) as [Hid (u' & m' & Hk & Hg)].
-    split; [exact Hid|]. rewrite Hm in Hk. apply vary_key_url_inj in Hk. subst u'. exact Hg.
+    intros e0 He. destruct HI as [I1 _]. destruct (I1 _ _ He) as [Hid (u' & m' & Hk & Hg & Hsf)].
+    split; [exact Hid|]. rewrite Hm in Hk. apply vary_key_url_inj in Hk. subst u'. split; assumption.
   - destruct Hinv as (Hv & He & Hc). injection H as <- <-. split; [exact Hc|]. cbn. eapply InvS_set_entry; eassumption.
   - destruct Hinv as (-> & Hl & Hc). injection H as <- <-. split; [exact Hc|]. cbn. apply InvS_set_refs; assumption.
   - injection H as <- <-. split; [exact Hinv|]. cbn. apply InvS_del; assumption.
   - destruct Hinv as [Hu Hc].
     destruct (do_origin_log limit r w) as (ev & Hl & Hst & _ & Hrep). destruct (do_origin limit r w) as [rep w'] eqn:Ed. cbn [fst snd] in *.
     injection H as <- <-. split; [|rewrite Hst; exact HI]. apply Hc.
+    { destruct (do_origin_logs_call limit r w) as (b0 & a0 & c1 & rp0 & Hcall). rewrite Ed in Hcall. cbn [snd] in Hcall.
+      exists b0, a0, c1, rp0. apply Hincl. rewrite Hcall. left. reflexivity. }
     intros r0 E. subst rep. destruct Hrep as [Hb|(a & c0 & rp & Hev)]; [rewrite Hb; apply Gl_nobody|].
     right. exists r. split; [|exact Hu]. exists a, c0, rp. apply Hincl. rewrite Hl. left. exact Hev.
 Qed.
@@ -535,18 +651,18 @@ Section ConcProv.
   Definition fgp_ok (q : request) (t : tstate) : Prop :=
     match t with
     | TStart q' => q' = q
-    | TFg q' p => q' = q /\ Safe (Gl Lf) (ukey q) (leaf_ok (Gl Lf) (ukey q)) p
+    | TFg q' p => q' = q /\ Safe (Gl Lf) (Pl Lf) (ukey q) (leaf_ok (Gl Lf) (ukey q)) p
     | TDoneFg q' r => q' = q /\ forall a, r = Done a -> leaf_ok (Gl Lf) (ukey q) a
     | _ => False
     end.
   Definition bgp_ok (t : tstate) : Prop :=
     match t with TBg p => bg_safe_any Lf p | TDoneBg _ => True | _ => False end.
   Definition pinv (cw : cworld) : Prop :=
-    Forall2 fgp_ok qs (cw_fg cw) /\ Forall bgp_ok (cw_bg cw) /\ InvS (Gl Lf) (w_store (cw_w cw)).
+    Forall2 fgp_ok qs (cw_fg cw) /\ Forall bgp_ok (cw_bg cw) /\ InvS (Gl Lf) (Pl Lf) (w_store (cw_w cw)).
 
-  Lemma fg_state_pok q p : Safe (Gl Lf) (ukey q) (leaf_ok (Gl Lf) (ukey q)) p -> fgp_ok q (fg_state q p).
+  Lemma fg_state_pok q p : Safe (Gl Lf) (Pl Lf) (ukey q) (leaf_ok (Gl Lf) (ukey q)) p -> fgp_ok q (fg_state q p).
   Proof.
-    intros H. unfold fg_state. pose proof (Safe_inversion _ _ _ _ H) as Hi.
+    intros H. unfold fg_state. pose proof (Safe_inversion _ _ _ _ _ H) as Hi.
     destruct p; cbn [finished fgp_ok]; try (split; [reflexivity|exact H]).
     - split; [reflexivity|]. intros a0 E. injection E as <-. exact Hi.
     - split; [reflexivity|]. intros a0 E. discriminate.
@@ -560,7 +676,7 @@ Section ConcProv.
     induction fuel as [|f IH]; intros ps H; destruct ps as [|p r]; cbn [settle_spawned]; try constructor.
     inversion H as [|? ? [u Hp] Hr]; subst.
     destruct (settle p clock []) as [p' more] eqn:E.
-    destruct (settle_safe p _ _ _ clock [] p' more Hp E) as [Hp' (m & -> & HF)]. cbn [app] in *.
+    destruct (settle_safe p _ _ _ _ clock [] p' more Hp E) as [Hp' (m & -> & HF)]. cbn [app] in *.
     constructor; [apply bg_state_pok; exists u; exact Hp'|].
     apply IH. apply Forall_app. split; [exact Hr|]. eapply Forall_impl; [|exact HF]. intros b Hb. exists u. exact Hb.
   Qed.
@@ -574,7 +690,7 @@ Section ConcProv.
       destruct t as [q'|q' p| | |]; try discriminate.
       + cbn in Hok. subst q'.
         destruct (settle (round_trip q) (w_clock (cw_w cw)) []) as [p' sp] eqn:E. injection H as <-. cbn [cw_w cw_fg cw_bg] in *.
-        destruct (settle_safe _ _ _ _ _ _ _ _ (round_trip_safe (Gl Lf) (Gl_nobody Lf) q) E) as [Hp' (m & -> & HF)]. cbn [app] in *.
+        destruct (settle_safe _ _ _ _ _ _ _ _ _ (round_trip_safe (Gl Lf) (Pl Lf) (Gl_nobody Lf) q) E) as [Hp' (m & -> & HF)]. cbn [app] in *.
         split; [|split]; cbn [cw_fg cw_bg cw_w].
         * eapply Forall2_replace; [exact Hfg|exact Hq|]. apply fg_state_pok, Hp'.
         * apply Forall_app. split; [exact Hbg|]. apply settle_spawned_pok.
@@ -584,7 +700,7 @@ Section ConcProv.
         destruct (perform None p (cw_w cw)) as [p1 w1] eqn:Ep.
         destruct (settle p1 (w_clock w1) []) as [p2 sp] eqn:E. injection H as <-. cbn [cw_w cw_fg cw_bg] in *.
         destruct (perform_safe p Lf _ _ None _ p1 w1 Hsafe HI Ep Hincl) as [Hs1 HI1].
-        destruct (settle_safe _ _ _ _ _ _ _ _ Hs1 E) as [Hp2 (m & -> & HF)]. cbn [app] in *.
+        destruct (settle_safe _ _ _ _ _ _ _ _ _ Hs1 E) as [Hp2 (m & -> & HF)]. cbn [app] in *.
         split; [|split]; cbn [cw_fg cw_bg cw_w].
         * eapply Forall2_replace; [exact Hfg|exact Hq|]. apply fg_state_pok, Hp2.
         * apply Forall_app. split; [exact Hbg|]. apply settle_spawned_pok.
@@ -598,7 +714,7 @@ Section ConcProv.
       destruct (perform (Some T) p (cw_w cw)) as [p1 w1] eqn:Ep.
       destruct (settle p1 (w_clock w1) []) as [p2 sp] eqn:E. injection H as <-. cbn [cw_w cw_fg cw_bg] in *.
       destruct (perform_safe p Lf _ _ (Some T) _ p1 w1 Hsafe HI Ep Hincl) as [Hs1 HI1].
-      destruct (settle_safe _ _ _ _ _ _ _ _ Hs1 E) as [Hp2 (m & -> & HF)]. cbn [app] in *.
+      destruct (settle_safe _ _ _ _ _ _ _ _ _ Hs1 E) as [Hp2 (m & -> & HF)]. cbn [app] in *.
       split; [|split]; cbn [cw_fg cw_bg cw_w].
       + exact Hfg.
       + apply Forall_app. split.
@@ -642,22 +758,34 @@ End ConcProv.
 
 (* under every schedule: what a finished call returned has a body produced by an origin call — somewhere in the
    phase's log or known before — for a request with the same URL key *)
+Lemma Gl_mono L L' u b : incl L L' -> Gl L u b -> Gl L' u b.
+Proof.
+  intros Hi [Hb|(q' & (a & c & rep & Hin) & Hu)]; [left; exact Hb|right]. exists q'. split; [|exact Hu]. exists a, c, rep. apply Hi, Hin.
+Qed.
+Lemma Pl_mono L L' q : incl L L' -> Pl L q -> Pl L' q.
+Proof. intros Hi (b & a & c & rep & Hin). exists b, a, c, rep. apply Hi, Hin. Qed.
+Lemma InvS_mono L L' s : incl L L' -> InvS (Gl L) (Pl L) s -> InvS (Gl L') (Pl L') s.
+Proof.
+  intros Hi [I1 I2]. split; [|exact I2]. intros k e He. destruct (I1 k e He) as [Hid (u & m & Hk & Hg & (q0 & m0 & Hp & Hrest))].
+  split; [exact Hid|]. exists u, m. split; [exact Hk|split; [eapply Gl_mono; eassumption|]]. exists q0, m0. split; [eapply Pl_mono; eassumption|exact Hrest].
+Qed.
+
 Theorem concurrent_provenance T qs w sched cw n H0 :
-  InvS (Gl H0) (w_store w) ->
+  InvS (Gl H0) (Pl H0) (w_store w) ->
   run_schedule T sched {| cw_w := w; cw_fg := map TStart qs; cw_bg := []; cw_trace := [] |} 0 = (cw, n) ->
+  InvS (Gl (w_log (cw_w cw) ++ H0)) (Pl (w_log (cw_w cw) ++ H0)) (w_store (cw_w cw)) /\
   forall i q r, nth_error qs i = Some q -> nth_error (cw_fg cw) i = Some (TDoneFg q (Done (OResp r))) ->
   Gl (w_log (cw_w cw) ++ H0) (make_url_key (q_url q)) (p_body r).
 Proof.
-  intros HI Hrun i q r Hq Ht.
+  intros HI Hrun.
   set (Lf := w_log (cw_w cw) ++ H0).
-  assert (Hmono : forall u b, Gl H0 u b -> Gl Lf u b).
-  { intros u b [Hb|(q' & (a & c & rep & Hin) & Hu)]; [left; exact Hb|right]. exists q'. split; [|exact Hu]. exists a, c, rep. apply in_or_app. right. exact Hin. }
-  assert (HI' : InvS (Gl Lf) (w_store w)).
-  { destruct HI as [I1 I2]. split; [|exact I2]. intros k e He. destruct (I1 k e He) as [Hid (u & m & Hk & Hg)]. split; [exact Hid|]. exists u, m. auto. }
+  assert (HI' : InvS (Gl Lf) (Pl Lf) (w_store w)).
+  { eapply InvS_mono; [|exact HI]. intros x Hx. apply in_or_app. right. exact Hx. }
   assert (Hinit : pinv qs Lf {| cw_w := w; cw_fg := map TStart qs; cw_bg := []; cw_trace := [] |}).
   { split; [|split; [constructor|exact HI']]. cbn. clear. induction qs as [|x l IH]; cbn; constructor; cbn; auto. }
-  destruct (pinv_schedule qs Lf T sched _ _ _ _ Hinit Hrun) as (Hfg & _ & _).
+  destruct (pinv_schedule qs Lf T sched _ _ _ _ Hinit Hrun) as (Hfg & _ & HIf).
   { intros x Hx. apply in_or_app. left. exact Hx. }
+  split; [exact HIf|]. intros i q r Hq Ht.
   destruct (Forall2_nth _ _ _ _ _ Hfg Ht) as (q' & Hq' & Hok). rewrite Hq in Hq'. injection Hq' as <-.
   cbn in Hok. destruct Hok as [_ Hleaf]. exact (Hleaf (OResp r) eq_refl).
 Qed.
